@@ -13,8 +13,8 @@ BUFR_Dataset  *cur_dts = NULL;
 
 void template_reset(void)
    {
-   if (cur_dts) bufr_free_dataset(cur_dts);
-   if (cur_tmpl) bufr_free_template(cur_tmpl);
+   if (cur_dts && !bvp_poisoned) bufr_free_dataset(cur_dts);
+   if (cur_tmpl && !bvp_poisoned) bufr_free_template(cur_tmpl);
    cur_dts = NULL; cur_tmpl = NULL; cur_tables = NULL;
    }
 
